@@ -4,12 +4,12 @@ go 1.23.6
 
 require (
 	github.com/aptpod/iscp-go v0.0.0
+	github.com/aptpod/iscp-proto v0.0.0-20230808235245-fada26057efa
 	github.com/google/uuid v1.3.0
 	pgregory.net/rapid v1.3.0
 )
 
 require (
-	github.com/aptpod/iscp-proto v0.0.0-20230808235245-fada26057efa // indirect
 	github.com/coder/websocket v1.8.12 // indirect
 	github.com/gogo/protobuf v1.3.2 // indirect
 	github.com/quic-go/qpack v0.5.1 // indirect
